@@ -33,6 +33,22 @@ type CCase struct {
 	Reads   string   `json:"reads"`
 	RSeed   uint64   `json:"rseed"`
 	Buf     int      `json:"buf,omitempty"`
+	HCRC    bool     `json:"hcrc,omitempty"`   // gzip: the header is rewritten with FHCRC and its CRC-16
+	Single  bool     `json:"single,omitempty"` // gzip: read with Multistream(false)
+}
+
+// withHeaderCRC rewrites a gzip member's header so that it carries the optional header checksum
+// (FLG.FHCRC + the low 16 bits of the CRC-32 of the header bytes), which no Go writer emits.
+func withHeaderCRC(member []byte) []byte {
+	n, ok := gzipHeaderLen(member)
+	if !ok || member[3]&2 != 0 {
+		return member
+	}
+	h := append([]byte(nil), member[:n]...)
+	h[3] |= 2
+	sum := crc32.ChecksumIEEE(h)
+	out := append(h, byte(sum), byte(sum>>8))
+	return append(out, member[n:]...)
 }
 
 func (c *CCase) knownClass() string {
@@ -75,7 +91,10 @@ func genHeader(r *Rng) *GzHeader {
 		h.Comment = randLatin1(r, r.Pick([]int{1, 9, 300}))
 	}
 	if r.Intn(3) == 0 {
-		h.Extra = hexs(r.Bytes(r.Pick([]int{1, 4, 100, 65535})))
+		h.Extra = hexs(r.Bytes(r.Pick([]int{0, 1, 4, 100, 65535})))
+		if h.Extra == "" {
+			h.Extra = "-"
+		}
 	}
 	if r.Bool() {
 		h.ModTime = int64(r.Intn(1 << 31))
@@ -91,7 +110,7 @@ func genContainerW(r *Rng, api string) *WCase {
 		s.Dict = &DataSpec{Gen: r.PickS([]string{"text", "rnd"}), Seed: r.U64(), N: r.Pick([]int{4, 100, 5000, 40000, 40000, r.Range(1, 3)})}
 	}
 	n := pickSize(r, s, r.Intn(8) == 0)
-	w := &WCase{Set: s, Datas: []DataSpec{pickData(r, Setting{Win4K: true}, n)}}
+	w := &WCase{Set: s, Datas: []DataSpec{pickData(r, Setting{Win4K: true, Dict: s.Dict}, n)}}
 	w.Ops = append(partition(r, n, 0, s, r.Intn(3) == 0), Op{K: "c"})
 	return w
 }
@@ -105,7 +124,13 @@ type hdrFields struct {
 
 // readContainer decodes with fastgo (std=false) or the standard library.
 func readContainer(api string, std bool, in []byte, dict []byte, reads string, seed uint64) (o RObs, h hdrFields) {
-	o = RunR(api, std, in, dict, SrcSpec{Kind: "bytes.Reader"}, "new", nil, reads, seed, 0)
+	// one case in three reads through a reused Reader: constructed on an empty container (for zlib:
+	// one without FDICT), read to its end, then Reset onto the container under test
+	ctor := "new"
+	if seed%3 == 0 {
+		ctor = "reset"
+	}
+	o = RunR(api, std, in, dict, SrcSpec{Kind: "bytes.Reader"}, ctor, nil, reads, seed, 0)
 	if api == "gzip" && o.CtorErr == "" {
 		if std {
 			if zr, err := stdgzip.NewReader(bytes.NewReader(in)); err == nil {
@@ -286,6 +311,9 @@ func checkC07(rep *Report, pool *DriverPool, c *CCase) {
 		return
 	}
 	good := obs.Bytes(0)
+	if c.HCRC && w.Set.API == "gzip" {
+		good = withHeaderCRC(good)
+	}
 	// the content of the container is what the standard library reads from the intact copy
 	ref, _ := readContainer(w.Set.API, true, good, dict, "big", 0)
 	if ref.Err != "EOF" || ref.CtorErr != "" {
@@ -303,7 +331,11 @@ func checkC07(rep *Report, pool *DriverPool, c *CCase) {
 		in = in[:c.Cut]
 	}
 	api := w.Set.API
-	o, _ := readContainer(api, false, in, dict, c.Reads, c.RSeed)
+	rapi := api
+	if c.Single && api == "gzip" {
+		rapi = "gzip1"
+	}
+	o, _ := readContainer(rapi, false, in, dict, c.Reads, c.RSeed)
 	kind := "corrupt"
 	if c.Cut >= 0 {
 		kind = "cut"
@@ -316,7 +348,7 @@ func checkC07(rep *Report, pool *DriverPool, c *CCase) {
 		rep.Violate("panic-or-hang", "", o.Panic, c)
 		return
 	}
-	compareContainerModel(rep, pool, c, api, true, dict, w.Set.Dict != nil, in, &o, -1)
+	compareContainerModel(rep, pool, c, api, !c.Single, dict, w.Set.Dict != nil, in, &o, -1)
 	if c.Cut >= 0 && len(c.Flip) == 0 && len(c.Subst) == 0 {
 		// truncated inside the member: unexpected EOF after nothing but a prefix of the payload
 		if !isPrefix(o.Bytes, payload) {
@@ -347,7 +379,7 @@ func checkC07(rep *Report, pool *DriverPool, c *CCase) {
 		case "zlib":
 			okSum = len(in) >= 4 && binary.BigEndian.Uint32(in[len(in)-4:]) == adler32.Checksum(o.Bytes)
 		}
-		so, _ := readContainer(api, true, in, dict, "big", 0)
+		so, _ := readContainer(rapi, true, in, dict, "big", 0)
 		if !okSum || so.Err != "EOF" || !bytes.Equal(so.Bytes, o.Bytes) {
 			rep.Violate("success-without-matching-checksum", "", fmt.Sprintf("fastgo returned %d bytes and io.EOF; trailer match=%v; the standard library: %d bytes, %s%s", len(o.Bytes), okSum, len(so.Bytes), so.Err, so.CtorErr), c)
 		}
@@ -385,7 +417,8 @@ func suiteC07(c *ctx) {
 		}
 		n := len(obs.Bytes(0))
 		for k := 0; k < 10; k++ {
-			cc := &CCase{Prop: "C07", ID: fmt.Sprintf("C07-%d-%d", i, k), Dir: dir, W: w, Cut: -1, Reads: readStyles[r.Intn(len(readStyles))], RSeed: r.U64()}
+			cc := &CCase{Prop: "C07", ID: fmt.Sprintf("C07-%d-%d", i, k), Dir: dir, W: w, Cut: -1, Reads: readStyles[r.Intn(len(readStyles))], RSeed: r.U64(),
+				HCRC: api == "gzip" && i%3 == 0, Single: api == "gzip" && (i+k)%3 == 1}
 			if cc.Reads == "one" {
 				cc.Reads = "k3"
 			}
@@ -405,10 +438,23 @@ func suiteC07(c *ctx) {
 			}
 			cases = append(cases, cc)
 		}
+		hcrc := api == "gzip" && i%3 == 0
+		lo, hi := 0, 0
 		if n <= 80 {
-			for cut := 0; cut < n; cut++ {
-				cases = append(cases, &CCase{Prop: "C07", ID: fmt.Sprintf("C07-%d-t%d", i, cut), Dir: dir, W: w, Cut: cut, Reads: "big"})
+			hi = n
+		}
+		if hcrc {
+			// every cut around the end of a header that carries the optional header checksum
+			n += 2
+			if hl, ok := gzipHeaderLen(withHeaderCRC(obs.Bytes(0))); ok && hi == 0 {
+				lo, hi = hl-8, hl+4
+				if lo < 0 {
+					lo = 0
+				}
 			}
+		}
+		for cut := lo; cut < hi && cut < n; cut++ {
+			cases = append(cases, &CCase{Prop: "C07", ID: fmt.Sprintf("C07-%d-t%d", i, cut), Dir: dir, W: w, Cut: cut, Reads: "big", HCRC: hcrc, Single: cut%2 == 1})
 		}
 	}
 	parallelJ(len(cases), func(i int) interface{} { return cases[i] }, func(i int) { checkC07(c.rep, c.pool, cases[i]) })
